@@ -76,7 +76,7 @@ Reset == /\ IsCall("reset")
          /\ nkeys' = 0 /\ names' = <<>> /\ fl' = <<>> /\ nextid' = 1 /\ hist' = <<>> /\ lastLog' = ""
          /\ faulted' = FALSE /\ phase' = "run"
 
-FailedCall == /\ l <= Len(Rec) /\ Rec[l].call \notin {"mark", "reset", "crash"} /\ Fails
+FailedCall == /\ l <= Len(Rec) /\ Rec[l].call \notin {"mark", "reset", "crash", "stall"} /\ Fails
               /\ l' = l + 1 /\ faulted' = TRUE
               /\ UNCHANGED <<nkeys, names, fl, nextid, hist, lastLog, phase>>
 
@@ -123,6 +123,12 @@ Rename == /\ IsCall("rename") /\ ~Fails
                       ELSE names
           /\ UNCHANGED <<nkeys, fl, nextid, hist, lastLog, faulted, phase>>
 
+\* the schedule in which the memtable thread is descheduled just before it renames the log it has flushed into trash/
+\* (shim SHIM_STALL_AT): the call is not made; every other thread runs on until the crash
+Stall == /\ IsCall("stall")
+         /\ G("only the retirement of a flushed log is held back", IsLog(Ev.path) /\ IsTrash(Ev.path2))
+         /\ UNCHANGED <<nkeys, names, fl, nextid, hist, lastLog, faulted, phase>>
+
 Unlink == /\ IsCall("unlink") /\ ~Fails
           /\ G("only temporaries, trash, processed manifest fragments and verifier files are unlinked (C08)",
                \/ IsTmp(Ev.path) \/ IsTrash(Ev.path) \/ IsVerify(Ev.path)
@@ -154,7 +160,7 @@ MAck == /\ IsMark("ack")
            IN /\ hist' = h2
               /\ G("a write returns only when its log bytes are synced (C02)",
                    isw => (lastLog # "" /\ Known(lastLog) /\ fl[names[lastLog]].s = fl[names[lastLog]].w))
-              /\ G("reads after the operation = acknowledged writes (C01)", Allowed(h2, Ev.mark.gets))
+              /\ G("reads after the operation = acknowledged writes (C01)", Has(Ev.mark, "gets") => Allowed(h2, Ev.mark.gets))
               /\ G("the verifier accepts unless a fault was injected (C04/C08)", (Has(Ev.mark, "verdict") /\ ~faulted) => Ev.mark.verdict \in {"ok", "backoff"})
         /\ UNCHANGED <<nkeys, names, fl, nextid, lastLog, faulted, phase>>
 
@@ -180,7 +186,7 @@ MRecovered == /\ IsMark("recovered")
               /\ UNCHANGED <<nkeys, names, fl, nextid, hist, lastLog, faulted, phase>>
 \* "reopening never needs manual repair for a crash between whole system calls": no action for "recover-err"
 
-TraceNext == \/ Reset \/ FailedCall \/ Dirs \/ Creat \/ Write \/ Sync \/ Link \/ Rename \/ Unlink \/ Trunc
+TraceNext == \/ Reset \/ FailedCall \/ Dirs \/ Creat \/ Write \/ Sync \/ Link \/ Rename \/ Stall \/ Unlink \/ Trunc
              \/ MOpenBegin \/ MOpenAck \/ MOpenErr \/ MBegin \/ MAck \/ MErr \/ MClose \/ Crash \/ MRecovered
 TraceSpec == Init /\ [][TraceNext]_vars
 
